@@ -22,6 +22,8 @@ CONTRACTS = {
                        "ensures": {"hasattr(component, n): the attribute already has a value (instance or class level)": "result == has(obj.attrs, name)"},
                        "note": "hasattr on the component (reflection); attrs abstracts 'has a value already'"},
     "get_injection_requests": {
+        "site_asserts_in": {"MagicRobot._create_component": {"C08.K1 constructor parameters are requested under the component's own attribute name (the '<component>_<param>' prefix)": "cname == L_name and component is None"},
+                            "MagicRobot._setup_vars": {"C08.K3 attributes are requested under the component's name, for the instance itself": "cname == L_cname and component is L_component"}},
         "params": {"type_hints": "Map[Str,Ref:TypeObj]", "cname": "Str", "component": "Ref:InjTarget"}, "defaults": {"component": None},
         "returns": "Map[Str,Ref:TypeObj]", "raises": True, "local_sorts": {"requests": "Map[Str,Ref:TypeObj]"},
         "requires": {"type_hints is a proper dict": "wf_map(type_hints)", "hint values exist": "forall(k, Str, implies(has(type_hints, k), type_hints[k] is not None))"},
@@ -44,6 +46,8 @@ CONTRACTS = {
                           "exists(k, Str, has(type_hints, k) and ((component is None and startswith(k, '_')) or not is_type(unwrapped(type_hints[k]))))"},
     },
     "find_injections": {
+        "site_asserts_in": {"MagicRobot._create_component": {"C08.K1 constructor parameters are looked up under the component's own attribute name": "cname == L_name and same_map(injectables, L_injectables)"},
+                            "MagicRobot._setup_vars": {"C08.K3 attributes are looked up under the component's name in the robot's injectables": "cname == L_cname and same_map(injectables, L_injectables)"}},
         "params": {"requests": "Map[Str,Ref:TypeObj]", "injectables": "Map[Str,Ref:PyObj]", "cname": "Str"},
         "returns": "Map[Str,Ref:PyObj]", "raises": "MagicInjectError", "local_sorts": {"to_inject": "Map[Str,Ref:PyObj]"},
         "requires": {"requests is a proper dict": "wf_map(requests)"},
